@@ -573,7 +573,26 @@ func init() {
 					})
 				}})
 			// many goroutines shuffle and draw at once: every result is still an arrangement of (an element of) its receiver
-			secs = append(secs, core.Section{Name: "concurrent-shuffles", N: 4,
+			// many goroutines reverse, cut and re-case short strings of their own at once, hundreds of times per evaluation
+			secs = append(secs, core.Section{Name: "concurrent-character-built-ins", N: 6,
+				Run: func(c *core.Ctx, i int) {
+					const G, N = 16, 60
+					c.Input(map[string]any{"goroutines": G, "calls_each": N, "round": i})
+					c.Nontrivial(fmt.Sprint("character-burst", i, c.Seed))
+					src := "@for(k = 0; k < 120; k++){{ s.reverse() == r ? \"\" : \"torn-reverse \" }}{{ s.reverse().reverse() == s ? \"\" : \"torn-twice \" }}{{ s.upper().lower() == l ? \"\" : \"torn-case \" }}" +
+						"{{ s.truncate(5, \"\") + s.at(5) == s.truncate(6, \"\") ? \"\" : \"torn-cut \" }}{{ s.split(\"\").reverse().join(\"\") == r ? \"\" : \"torn-split \" }}@end|{{ s.len() }}"
+					concurrentBurst(c, G, N, func(g, n int) (string, map[string]any, string) {
+						unit := []string{"αβγδ", "xyz", "中文字", "Zz ", "😀é", "ǅž"}[(g+n)%6]
+						str := fmt.Sprintf("g%d-%s-n%d", g, strings.Repeat(unit, 2+(n*7+g)%9), n)
+						runes := []rune(str)
+						rev := make([]rune, len(runes))
+						for k, r := range runes {
+							rev[len(runes)-1-k] = r
+						}
+						return src, map[string]any{"s": str, "r": string(rev), "l": strings.ToLower(strings.ToUpper(str))}, fmt.Sprintf("|%d", len(runes))
+					})
+				}})
+			secs = append(secs, core.Section{Name: "concurrent-shuffles", N: 8,
 				Run: func(c *core.Ctx, i int) {
 					const G, N = 16, 120
 					c.Input(map[string]any{"goroutines": G, "calls_each": N, "round": i})
